@@ -30,4 +30,7 @@ EXTRAS = [
     lambda rep, fb, tier: __import__("vf.rules.lints", fromlist=["x"]).rule_call_roles(rep, fb),
     lambda rep, fb, tier: __import__("vf.rules.lints2", fromlist=["x"]).rule_failure_message_condition(rep, fb),
     lambda rep, fb, tier: __import__("vf.rules.lints2", fromlist=["x"]).rule_missing_predicate(rep, fb),
+    lambda rep, fb, tier: __import__("vf.rules.lints3", fromlist=["x"]).rule_valid_explicit_length(rep, fb),
+    lambda rep, fb, tier: __import__("vf.rules.lints3", fromlist=["x"]).rule_merge_parameters(rep, fb),
+    lambda rep, fb, tier: __import__("vf.rules.lints3", fromlist=["x"]).rule_option_shortcut(rep, fb),
 ]
